@@ -7,7 +7,7 @@ WT=$(mktemp -d /tmp/wt-rechk-XXXXXX); rmdir $WT
 git -C /repo worktree add -q --detach $WT HEAD || exit 2
 git -C $WT apply $S/patch.diff || { git -C /repo worktree remove --force $WT; exit 2; }
 cd /verif
-VP_REPO=$WT ./check $PID --only "$PAT" > $S/check.log 2>&1; rc=$?
+VP_REPO=$WT ./check $PID ${SEED_TIER:+--tier $SEED_TIER} --only "$PAT" > $S/check.log 2>&1; rc=$?
 git -C /repo worktree remove --force $WT
 grep -v -E "^check_rc=|^VIOLATION|^KNOWN-FINDING|^BROKEN|^\[C" $S/eval.log > $S/eval.log.new
 echo "check_rc=$rc (VP_REPO=patched worktree, ./check $PID --only '$PAT')" >> $S/eval.log.new
